@@ -213,6 +213,9 @@ class Checker:
             got_u = sorted(qr.GetComposingUnitsJoiningExponents())
             want_c = sorted((c, u, -e) for c, (u, e) in qx.GetCategoryToUnitAndExps().items())
             got_c = sorted((c, u, e) for c, (u, e) in qr.GetCategoryToUnitAndExps().items())
+            # the result is a quantity of this database, and its quantity-type string is the reciprocal of x's own
+            if "mixed" not in case["xkind"] and (qr.GetUnitDatabase() is not self.db or (not qx.IsDerived() and qx.GetQuantityType() and qx.GetQuantityType() not in qr.GetQuantityType())):
+                ctx.fail("reciprocal_quantity_of_another_database_or_type:%s" % cls.__name__, case, "%s: x is %r (quantity type %r); the result has quantity type %r and belongs to %s database" % (form, qx, qx.GetQuantityType(), qr.GetQuantityType(), "this" if qr.GetUnitDatabase() is self.db else "another"))
             if want_u != got_u or want_c != got_c:
                 ctx.fail("reciprocal_dimension_wrong:%s" % cls.__name__, case, "%s: x is %r; the result has units %r / categories %r, expected %r / %r" % (form, qx, got_u, got_c, want_u, want_c))
         # 2. values
@@ -363,7 +366,25 @@ def _strategies(db, um):
     return base()
 
 
+def _decoy_first():
+    """the same divisions are done first while a project database is current in which the same category names and unit
+    symbols belong to quantity types with other names"""
+    import numpy
+
+    from barril.units import Array, Scalar
+
+    rn = env.renamed_db()
+    with env.pushed(rn):
+        for u, c in (("m", "length"), ("cm", "length"), ("ft", "depth"), ("km", "diameter"), ("s", "time"), ("min", "time"), ("K", "temperature"), ("degC", "temperature")):
+            x = Scalar(3.0, u, c)
+            2.0 / x, 2 // x, numpy.float64(2.0) / x, x * 2.0, 2.0 * x
+            a = Array([3.0, 4.0], u, c)
+            2.0 / a, a / 2.0
+
+
 def run_shard(spec, ctx):
+    _decoy_first()
+    ctx.cls("decoy_database_divided_first")
     db = env.new_db("posc")
     with env.pushed(db):
         ch = Checker(ctx, db)
@@ -383,6 +404,7 @@ def run_shard(spec, ctx):
 
 
 def replay(case, ctx):
+    _decoy_first()
     db = env.new_db("posc")
     with env.pushed(db):
         ch = Checker(ctx, db)
